@@ -1163,11 +1163,14 @@ def perm_case(chk, ctx, case, rng):
 # ----------------------------------------------------------------------------------------------- the spectrum cache
 class LogDict(dict):
     """the module-level cache, recording every lookup / store / read in order (behaviour unchanged)"""
-    def __init__(self): super().__init__(); self.log = []; self.keep = []
+    def __init__(self): super().__init__(); self.log = []; self.keep = []; self.snap = {}
     def __contains__(self, k):
         r = dict.__contains__(self, k); self.log.append(('in', k, r)); return r
     def __setitem__(self, k, v):
         self.keep.append(v); self.log.append(('set', k, id(v))); dict.__setitem__(self, k, v)
+        # the values as they were when stored (= what func_ex returned for these parameters), whatever happens to the stored object later
+        try: self.snap[k] = np.array(np.ma.getdata(v), dtype=float).ravel().copy()
+        except Exception: pass
     def __getitem__(self, k):
         v = dict.__getitem__(self, k); self.log.append(('get', k, id(v))); return v
 
@@ -1345,10 +1348,8 @@ def cacheadj_case(chk, ctx, case, rng):
         chk.fail('%s:boot_theta_adjusts:%s' % (api, type(e).__name__), '%s with boot_theta_adjusts raises %r' % (api, e), small); return
     # ---- L3 (1): the cache holds unscaled model spectra
     def fresh_fs(key):
-        # the function object the key holds (the user's function, or the closure an entry point wrapped around it), evaluated afresh
-        f = key[0] if callable(key[0]) else func
-        with quiet(case.get('masks') is not None):
-            return np.asarray(np.ma.getdata(f(np.array(key[1]), key[2], key[3])), dtype=float).ravel()
+        # what the model function returned for these parameters when the entry was stored (snapshot taken by the logging dictionary)
+        return ld.snap[key]
     for key, val in held:
         w = fresh_fs(key); v = np.asarray(np.ma.getdata(val), dtype=float).ravel()
         if not (v.shape == w.shape and np.all(np.abs(v - w) <= 1e-12 * np.maximum(np.abs(w), 1e-300))):
